@@ -11,6 +11,7 @@ from vlib.core import Infra
 LEVEL = "model_checking"
 
 HEADER = ("package main\n\nimport frt\nimport slice\nimport dict\nimport buf\n\npackage_info _ =\n  let extEmpty<T>: ()->[]T\n\n"
+          "type Doc = {Body: Buffer; Keys: []Dict}\nand Buffer = {N: int}\nand Dict = {M: int}\n\n"
           "type Box<T> = {V: T}\n\ntype Res<T> =\n| Succ of T\n| Fail\n\nlet ident x =\n  x\n\n")
 
 
@@ -42,6 +43,8 @@ def render(k, term, toks, pos):
         return "let t%d () =\n  extEmpty<%s> ()\n\n" % (k, t)
     if pos == "targfn":
         return "let t%d (v: %s) =\n  ident<%s> v\n\n" % (k, t, t)
+    if pos.startswith("hdr"):
+        return ""                 # (declared once in the header: user types named like external types, mentioned before they are declared)
     if pos == "pkginfo":
         n = len(term[1])
         if term[1][0][0] == "unit":
@@ -70,6 +73,9 @@ def extract(k, term, pos, info):
     if pos in ("targ", "targcase", "targext", "targfn"):
         f = funcs.get("t%d" % k)
         return nospace(f["targs"][0]) if f and len(f["targs"]) == 1 else None
+    if pos.startswith("hdr"):
+        st = dict((a, b) for a, b in (structs.get("Doc") or []))
+        return nospace(st[pos[3:]]) if pos[3:] in st else None
     if pos == "pkginfo":
         f = funcs.get("u%d" % k)
         if not f:
@@ -168,6 +174,10 @@ def run(ctx):
             specs.append((r["term"], r["min"], "min", pos, r["go"]))
             if r["red"] != r["min"]:
                 specs.append((r["term"], r["red"], "red", pos, r["go"]))
+    # user types whose short names are those of external types (buf.Buffer, dict.Dict), mentioned before their declaration in a
+    # `type .. and ..` group: they are the user's types, not package-qualified
+    specs.append((["named", "Buffer", []], ["Buffer"], "min", "hdrBody", "Buffer"))
+    specs.append((["slice", ["named", "Dict", []]], ["[]", "Dict"], "min", "hdrKeys", "[]Dict"))
     lines, bad = run_items(ctx, specs)
     d1 = 0
     for i, l in enumerate(lines):
